@@ -9,17 +9,26 @@
    symbolic n (power with exponent n) are outside the translator's subset:
    correspondence only. *)
 From Coq Require Import ZArith List Bool Field.
-From SVP Require Import Base.Num Base.Cplx Base.Poly Base.FieldTac Base.Agree Model.Arc.
+From SVP Require Import Base.Num Base.TLaws Base.Cplx Base.Poly Base.FieldTac Base.Agree Model.Arc.
 From SVP Require Import Gen.GenArc.
 Import ListNotations.
 Section A.
-Context {K : Type} (N : Num K) (T : NumT K) (OK : NumFieldOK N).
+Context {K : Type} (N : Num K) (T : NumT K) (OK : NumFieldOK N) (L : NumTLaws N T).
 Add Field KF : (Fth OK).
-Ltac agree_arc :=
-  intros; destruct_cplx_vars;
+(* radians(x) and x*pi/180 (degrees(x) and x*180/pi) are identified by the laws L
+   (Base/TLaws.v; they hold at the real instance): a lemma that needs them depends
+   on L, one that does not stays unconditional. *)
+Ltac agree_arc_norm :=
   cbv -[add sub mul div opp inv zero one eqb ltb leb
-        sqrt_ cos_ sin_ tan_ acos_ asin_ atan_ ln_ pi_ hypot_ radians_ degrees_];
+        sqrt_ cos_ sin_ tan_ acos_ asin_ atan_ ln_ pi_ hypot_ radians_ degrees_].
+Ltac agree_arc_plain :=
+  intros; destruct_cplx_vars; agree_arc_norm;
   split_struct; try reflexivity; try ring.
+Ltac agree_arc_laws :=
+  intros; destruct_cplx_vars; agree_arc_norm;
+  rewrite ?(radians_law L), ?(degrees_law L); agree_arc_norm;
+  split_struct; try reflexivity; try ring.
+Ltac agree_arc := first [ solve [agree_arc_plain] | agree_arc_laws ].
 (* HEADER END *)
 
 
